@@ -477,7 +477,7 @@ def main():
                     violations.append((oid, confirmed[0], confirmed[1]['desc'], confirmed[2]))
                     summ['replay'] = confirmed[0]
                 else:
-                    engine_errors.append('%s: counterexample for "%s" did not reproduce on the real build (encoding/stub error or sanitizer-invisible UB)' % (oid, bad[0]['desc']))
+                    engine_errors.append('%s: counterexample for "%s" [%s] did not reproduce on the real build (encoding/stub error or sanitizer-invisible UB)' % (oid, bad[0]['desc'], bad[0]['name']))
             else:
                 summ['status'] = 'DISCHARGED'
                 discharged += 1
